@@ -71,7 +71,7 @@ func vIntRange(name string, lo, hi int) int {
 	}
 	return v
 }
-func vDuration(name string) time.Duration { return time.Duration(vNum(name)) }
+func vDuration(name string) time.Duration            { return time.Duration(vNum(name)) }
 func vDurationN(name string, bits int) time.Duration { return time.Duration(vNum(name)) }
 
 func vString(name string, cap int) string {
@@ -177,6 +177,11 @@ func vBlockUntil(f func() bool) {
 
 func vNote(s string) { fmt.Println("NOTE:", s) }
 
-func vJSONEqual(a, b []byte) bool  { return string(a) == string(b) }
+func vJSONEqual(a, b []byte) bool   { return string(a) == string(b) }
 func vJSONTruncate(b []byte) []byte { return b[:len(b)/2] }
 func vJSONString(b []byte) string   { return string(b) }
+
+func vSchedPolicy(p int) {}
+
+// vWatchStore registers a monitor run right after program code stores to the named struct field (engine only).
+func vWatchStore(field string, fn func(obj any)) {}
